@@ -17,8 +17,8 @@ import time
 
 VERIF = os.path.dirname(os.path.dirname(os.path.abspath(__file__)))
 REPO = os.environ.get("VERIF_REPO", "/repo")
-SPEC = os.path.join(VERIF, "spec")
-HARNESS = os.path.join(VERIF, "harness")
+SPEC = os.environ.get("VERIF_SPEC") or os.path.join(VERIF, "spec")             # VERIF_SPEC: a staged copy while developing
+HARNESS = os.environ.get("VERIF_HARNESS") or os.path.join(VERIF, "harness")          # VERIF_HARNESS: a staged copy while developing
 TLA_CP = "/opt/veriftools/tla/tla2tools.jar:/opt/veriftools/tla/CommunityModules-deps.jar"
 
 GOENV = {
